@@ -90,6 +90,10 @@ func Generated() []Prog {
 		"class Config\n  class << self\n    def load(path, mode = 1)\n      @store = [path]\n      @store[0]\n    end\n\n    def each_key(keys)\n      keys.each { |kk| kk.to_s }\n    end\n  end\n\n  def reload(force)\n    force\n  end\nend\ndbtp Config.load(\"a\", 2)\nConfig.each_key([:a])\nConfig.new.reload(true)\nConfig.zork\n",
 		// values whose type is a union returned by an operator on a union receiver, used afterwards
 		"cu = true\nuv = cu ? 1 : 2.5\nuw = uv * 2\ndbtp uw\nuw.abs\nuq = cu ? \"zz\" : 7\nur = uq * 2\ndbtp ur\nus = cu ? 7 : \"zz\"\nut = us * 2\ndbtp ut\nuw.zork\n",
+		// singleton methods on two objects, each called on the right and on the wrong object
+		"oa = \"x\"\ndef oa.shout\n  1\nend\nob = \"y\"\ndef ob.whisper\n  2.5\nend\ndbtp oa.shout\ndbtp ob.whisper\nob.shout\noa.whisper\noc = [1]\ndef oc.extra\n  :s\nend\ndbtp oc.extra\nob.extra\n",
+		// configured methods called with their keyword arguments
+		"dg = Dir.glob(\"*.rb\", base: \"lib\")\ndbtp dg\nDir.glob(\"*.rb\", 0, base: nil)\nDir.glob(\"*.rb\", base: 1)\ndbtp Test.keyword_json_test(name: 1)\nTest.keyword_json_test(name: \"s\")\n",
 		// top-level redefinitions and re-bindings: the last definition / binding before a use wins
 		"def label\n  1\nend\nmark = 1\ndef label\n  \"s\"\nend\nmark = \"s\"\ndef label\n  2.5\nend\nmark = 2.5\ndbtp label\ndbtp mark\nlabel.upcase\nmark.upcase\n",
 		"class Gauge\n  def read\n    1\n  end\nend\nclass Gauge\n  def read\n    \"s\"\n  end\nend\ngg = Gauge.new\ndbtp gg.read\ngg.read.zork\n",
